@@ -23,6 +23,14 @@ pub fn generate(seed: u64, dir: &Path) -> Result<(), String> {
     for u in world.user_csv.iter_mut() {
         *u = u.replace(",-32768,", ",5000,");
     }
+    // the yomigana plugin must really fire on the scenario's bracketed readings
+    if let Some(arr) = world.config["inputTextPlugin"].as_array_mut() {
+        for p in arr.iter_mut() {
+            if p["class"].as_str().map(|c| c.ends_with("IgnoreYomiganaPlugin")).unwrap_or(false) {
+                p["maxYomiganaLength"] = json!(4);
+            }
+        }
+    }
     // a compact rewrite.def keeps the automaton construction affordable under Miri
     world.rewrite_def = "# ignore\nΩ\n\n# replace\nｶﾞ\tガ\nか\u{3099}\tが\nｱ\tア\n".to_string();
     std::fs::create_dir_all(dir).map_err(|e| e.to_string())?;
@@ -41,7 +49,7 @@ pub fn generate(seed: u64, dir: &Path) -> Result<(), String> {
     let pool = vec![
         format!("{}ｶﾞか\u{3099}Ａ{}", key(&mut rng), key(&mut rng)),
         format!("アイーーー{}〜〜", key(&mut rng)),
-        format!("東京(とうきょう){}", key(&mut rng)),
+        format!("東京(とう){}漢（か）", key(&mut rng)),
         format!("一二三十{}1,000.5", key(&mut rng)),
         format!("{}ウカカウ{}", key(&mut rng), key(&mut rng)),
         format!("abc-12{}漢漢", key(&mut rng)),
@@ -50,11 +58,21 @@ pub fn generate(seed: u64, dir: &Path) -> Result<(), String> {
     let modes = ["A", "B", "C"];
     let mut threads = vec![];
     let mut order: Vec<usize> = (0..pool.len()).collect();
-    rng.shuffle(&mut order);
     for t in 0..3 {
         let mut ops = vec![];
         for k in 0..2 {
-            let text = pool[order[(t * 2 + k) % pool.len()]].clone();
+            // every text of every thread reaches every stateful plugin (rewrite rules, prolonged sound marks,
+            // yomigana brackets, numerals, katakana / regex / MeCab OOV), in a thread-specific order and with
+            // thread-specific dictionary words, so that two threads are inside the same plugin with different data
+            rng.shuffle(&mut order);
+            let mut text = String::new();
+            for (j, idx) in order.iter().enumerate() {
+                if j >= 4 + k {
+                    break;
+                }
+                text.push_str(&pool[*idx]);
+            }
+            text.push_str(&key(&mut rng));
             let subset = if rng.chance(1, 2) { 1023 } else { (rng.next_u64() as u32 & 1023) | 0b1101 };
             ops.push(json!({"op": "analyse", "text": text, "mode": modes[rng.below(3)], "subset": subset}));
         }
